@@ -13,7 +13,9 @@
                               object comes back under any label, ORelabel = add_child(child, label=new),
                               OReplace = replace_child by a fresh or a removed node, OMapSet / OMapDel /
                               OMapUpdate = in-place edits wf.inputs_map[k] = v, del, .update(...) of the
-                              map object the property hands out) on a fresh Workflow
+                              map object the property hands out, OOrphan / OMoveAway = a child leaves
+                              by node.parent = None / = another workflow, OSetInputs = the keyword
+                              spelling wf.set_input_values) on a fresh Workflow
                               built with ANY pair of accepted constructor maps.  Keys are always formed
                               from the child's CURRENT label: exposes reads c_label of the state at hand.
      wfs st                   the structural invariant of reachable states *)
@@ -99,6 +101,28 @@ Theorem C15_connect_through : forall st key oc ol st', wconnect st key oc ol = (
     In (id, o) (w_conns st') /\ connected st' id = true /\ same_struct st st'.
 Proof. exact wconnect_through. Qed.
 Print Assumptions C15_connect_through.
+
+(* the keyword spellings (wf(k=v), wf.run(k=v), wf.set_input_values(k=v)): every keyword reaches the
+   child channel under that key as the very value given -- a value is number AND Python type
+   (enc tag z), so False, 0 and 0.0 are three different assignments *)
+Theorem C15_keywords_reach_child : forall st kw st', reachable st -> NoDup (map fst kw) ->
+  set_inputs st kw = (st', ROk) ->
+  same_graph st st' /\
+  exists p, build_io st DIn = Some p /\
+    forall k v, In (k, v) kw -> exists id, In (k, id) p /\ val st' id = Some v.
+Proof. intros st kw st' R. apply set_inputs_through. now apply reachable_wfs. Qed.
+Print Assumptions C15_keywords_reach_child.
+
+(* a child may leave by remove_child, node.parent = None or node.parent = another workflow: in
+   every case it is gone and no connection of the workflow touches its channels any more, so the
+   characterisation above speaks about the remaining children's channels only *)
+Theorem C15_leave_any_route : forall st l c cs, take_child l (w_children st) = Some (c, cs) ->
+  leave st l = remove_child st l /\ snd (leave st l) = ROk /\ w_children (fst (leave st l)) = cs /\
+  (forall p, In p (w_conns (fst (leave st l))) <->
+             In p (w_conns st) /\ ~ In (fst p) (child_ids c) /\ ~ In (snd p) (child_ids c)) /\
+  (forall id, In id (child_ids c) -> connected (fst (leave st l)) id = false).
+Proof. exact leave_disconnects. Qed.
+Print Assumptions C15_leave_any_route.
 
 (* ---- run returns the dictionary of the outputs -------------------------------------------------------- *)
 Theorem C15_return : forall st kw st' ret, run_wf st kw = (st', RRet ret) ->
@@ -217,12 +241,12 @@ Example C15_hyps_hold :
   let st := hist [OAdd 0 "a"; OAdd 1 "b"; OConnect "b" "x" "a" "y";
                   OSetMap DIn (Some [("b__x", Some "bx"); ("b__y", None)]);
                   OSetMap DOut (Some [("a__y", Some "mid"); ("b__d", None)]);
-                  OAssign "a__x" 41%Z] in
+                  OAssign "a__x" (enc 0 41)] in
   reachable st /\ good_labels st /\
   build_io st DIn = Some [("a__x", 0); ("bx", 2)] /\
   build_io st DOut = Some [("mid", 1); ("b__s", 4)] /\
   connected st 2 = true /\
-  snd (run_wf st []) = RRet [("mid", Some 42%Z); ("b__s", Some 95%Z)] /\
+  snd (run_wf st []) = RRet [("mid", Some (enc 0 42)); ("b__s", Some (enc 0 95))] /\
   snd (set_map st DIn (Some [("a__x", Some "q"); ("b__x", Some "q")])) = RExc DupErr.
 Proof.
   split; [apply hist_reachable|]. split.
@@ -249,4 +273,15 @@ Example C15_empty_map_filled_in_place :
   build_io (fst (map_setitem st DIn "b__x" None)) DIn = Some [("x", 0)] /\
   snd (map_update st DIn [("b__x", Some "y"); ("a__x", Some "y")]) = RExc KVDupErr /\
   snd (map_setitem (hist [OAdd 0 "a"]) DIn "a__x" (Some "x")) = RExc TypeErr.
+Proof. vm_compute. repeat split; reflexivity. Qed.
+
+(* a sibling input fed only by a child that left (by parent assignment) is open again; a keyword
+   False on a channel holding 0 arrives as the bool, and the float 0.0 makes the result a float *)
+Example C15_leave_and_typed_keywords :
+  let st := hist [OAdd 0 "a"; OAdd 0 "b"; OConnect "b" "x" "a" "y"] in
+  build_io st DIn = Some [("a__x", 0)] /\
+  build_io (fst (leave st "a")) DIn = Some [("b__x", 2)] /\
+  val (fst (set_inputs st [("a__x", enc 1 0)])) 0 = Some (enc 1 0) /\
+  snd (run_wf st [("a__x", enc 2 0)]) = RRet [("b__y", Some (enc 2 2))] /\
+  snd (run_wf st [("a__x", enc 1 0)]) = RRet [("b__y", Some (enc 0 2))].
 Proof. vm_compute. repeat split; reflexivity. Qed.
